@@ -524,6 +524,65 @@ def r08d(rep, F):
         rep.add('R08d', f.name, 'scratch-then-copy', why is None, f.loc, why or 'samples the scratch state, then copies the selected substates to the output')
 
 
+def r08e(rep, F):
+    rep.rule('R08e', 'SO3StateSpace::enforceBounds in algebraic normal form, path by path: the final quaternion is either exactly the '
+                     'identity (0, 0, 0, 1) or a uniform scaling of the *input* (all four components multiplied by one common factor: '
+                     'the cross products out.c * in.d - out.d * in.c vanish identically); the path taken for a (nearly) zero norm ends '
+                     'in the identity, and on the path that divides by the norm the squared norm of the result normalises to 1.  The '
+                     'numerical quality of the near-unit approximation is not decided')
+    from engine import sym
+    f = [x for x in F.by_name.get(B + 'SO3StateSpace::enforceBounds', []) if x.body]
+    if not f:
+        raise AnalysisBroken('R08e: SO3StateSpace::enforceBounds vanished')
+    f = f[0]
+    ctx = sym.Ctx(inline=sym.resolver(F, deny=()))
+    m = sym.Machine(F, ctx)
+    m.split = 'all'
+    Q = ('S', 'Q')
+    st = {'env': {f.params[0]['did']: Q}, 'heap': [], 'alias': {}, 'this': ('T',), 'facts': []}
+    try:
+        r = m.block(f, [f.body], st)
+        lv = sym.leaves(r, st)
+    except sym.Unsupported as e:
+        raise AnalysisBroken('R08e: outside the fragment: %s' % e)
+    comps = 'xyzw'
+    inp = {c: sym.Poly.atom(('rd', ('F', Q, c))) for c in comps}
+    nrm = inp['x'] * inp['x'] + inp['y'] * inp['y'] + inp['z'] * inp['z'] + inp['w'] * inp['w']
+    n = 0
+    ident = 0
+    for facts_, st_, r_ in lv:
+        out = {c: m.read(('F', Q, c), st_) for c in comps}
+        n += 1
+        role = 'path#%d' % n
+        is_id = all(sym._same(out[c], sym.Poly.const(1 if c == 'w' else 0)) for c in comps)
+        if is_id:
+            ident += 1
+            rep.add('R08e', f.name, role, True, f.where(f.nodes[f.body]), 'ends in the identity quaternion')
+            continue
+        cross = [(c, d) for i, c in enumerate(comps) for d in comps[i + 1:] if not sym._same(out[c] * inp[d], out[d] * inp[c])]
+        if cross:
+            rep.add('R08e', f.name, role, False, f.where(f.nodes[f.body]),
+                    'the result (%s) is neither the identity nor a uniform scaling of the input: e.g. a component written by '
+                    'setIdentity() is rescaled afterwards with a factor computed from the old norm'
+                    % ', '.join('%s = %s' % (c, sym.show(out[c])[:60]) for c in comps))
+            continue
+        # small-norm path must not be a scaling path
+        small = [x for x in facts_ if isinstance(x, tuple) and x and x[0] == 'lt0' and sym._same(sym.from_key(x[1]) - nrm, sym.from_key(x[1]) - nrm)
+                 and not sym.from_key(x[1]).mentions(lambda a: isinstance(a, tuple) and a and a[0] == 'app')
+                 and (sym.from_key(x[1]) - nrm).is_const() and (sym.from_key(x[1]) - nrm).cval() < 0]
+        if small:
+            rep.add('R08e', f.name, role, False, f.where(f.nodes[f.body]),
+                    'on the path taken for a squared norm below %s the input is rescaled instead of replaced by the identity'
+                    % (-(sym.from_key(small[0][1]) - nrm).cval()))
+            continue
+        rep.add('R08e', f.name, role, True, f.where(f.nodes[f.body]), 'uniform scaling of the input: out = s * in with s = %s'
+                % sym.show(out['w'])[:80].replace('*Q.w', ''))
+    if ident < 1:
+        rep.add('R08e', f.name, 'degenerate-input', False, f.where(f.nodes[f.body]),
+                'no path ends in the identity: a zero quaternion cannot be normalised by scaling')
+    rep.require_count('R08e', 'paths of SO3StateSpace::enforceBounds', n, 3)
+
+
 def run(rep):
     F = facts.load_units(UNITS)
     rep.units.update(UNITS)
@@ -532,3 +591,4 @@ def run(rep):
     r08a(rep, F)
     r08c(rep, F)
     r08d(rep, F)
+    r08e(rep, F)
